@@ -306,8 +306,8 @@ fn merge(into: &mut StreamReport, from: StreamReport) {
 fn proptest_config(cases: u32) -> Config {
     let mut c = Config::default();
     c.cases = cases;
-    c.max_local_rejects = 65_536;
-    c.max_global_rejects = 65_536;
+    c.max_local_rejects = u32::MAX;
+    c.max_global_rejects = u32::MAX;
     c.max_flat_map_regens = 1_000_000;
     c.failure_persistence = None;
     c.source_file = None;
